@@ -207,6 +207,7 @@ func (e *Env) Probe(st *Step) {
 
 	if probeEnabled("C20") && kind != "env" {
 		e.probeQueries(st)
+		st.Queries = e.queryLines(st)
 	}
 }
 
